@@ -1274,3 +1274,11 @@ VP("C10-R2C-mut-flag-inverted", "C10", "local `masking` flag computed the wrong 
    "        masking = sensitive_mask is not None", "        masking = sensitive_mask is None")
 VP("C10-R2C-mut-mask-empty-too", "C10", "empty sensitive values are masked as well", "C10-R2C", CORE,
    "                if field_value:\n                    value = _mask_value(field_value, sensitive_mask)", "                if True:\n                    value = _mask_value(field_value, sensitive_mask)")
+VP("C12-R2C-mut-reset-wrong-owner", "C12", "reset_value (refactored) resets on the root instead of the owning sub-configuration", "C12-R2C", SUP,
+   "    field.__setdefault__(owner)", "    field.__setdefault__(config)")
+VP("C12-R2C-mut-defined-wrong-owner", "C12", "is_value_defined (refactored) looks at the root's default marks", "C12-R2C", SUP,
+   "    return name not in owner._default_value_keys", "    return name not in config._default_value_keys")
+VP("C12-R2C-mut-mark-only", "C12", "swapped _set_default_value marks but stores conditionally", "C12-R2C", CORE,
+   "        self._default_value_keys.add(key)\n        self._data[key] = value", "        self._default_value_keys.add(key)\n        if value is not None:\n            self._data[key] = value")
+VP("C12-R2C-mut-ifexp-shares-default", "C12", "conditional-expression default shares the declared list when untyped", "C12-R2C", LIST,
+   "            default = ListProxy(cfg, self, default) if self.field else list(default)", "            default = ListProxy(cfg, self, default) if self.field else default")
